@@ -167,7 +167,7 @@ def parsers_keep_every_entry(ctx: Ctx, rid: str = "C14.R7") -> None:
                     and n.ast.args and c.ast in sl.origins(n.ast.args[0], n.id)["calls"]
                     and any(fr.kind == "loop" and fr.node is lp.ast for fr in n.frames)]
             n_sites += 1
-            wit = find_path(g, body, [lp.id], avoid=[a.id for a in apps], labels=NORMAL) if body is not None else None
+            wit = find_path(g, body, [lp.id], avoid=[a.id for a in apps], labels=NORMAL) if body is not None and body not in [a.id for a in apps] else None
             # the list appended to is the one returned after the loop
             lists = {dotted(a.ast.func.value) for a in apps if isinstance(a.ast, ast.Call)}  # type: ignore[union-attr]
             rets = [r for r in g.nodes if r.kind == "return" and r.id in reachable_from(g, lp.id, NORMAL) and r.ast is not None and r.ast.value is not None]  # type: ignore[union-attr]
@@ -652,6 +652,11 @@ def r5(ctx: Ctx) -> None:
             defs = ctx.rd(wd).reaching(c.id, ck.id)
             nonc = [d for d in defs if not (isinstance(g.nodes[d].ast, ast.Assign) and isinstance(g.nodes[d].ast.value, ast.Call)
                                             and "checksum" in norm_text(g.nodes[d].ast.value.func))]
+            if nonc:
+                # `size, checksum = self._measure(...)`: the value each definition unpacks (helper analysed in place)
+                srcs = resolve_value(ctx, wd, ck, c.id)
+                if srcs and all(isinstance(v, ast.Call) and "checksum" in norm_text(v.func) for v, _at in srcs):
+                    nonc = []
             ctx.ob("C14.R5", wd, "every reaching definition of the checksum is a computed digest", c, bool(defs) and not nonc,
                    "a fallback such as `checksum = None` after a failed read-back records a file that is never verified again"
                    + (f"; other definitions at lines {[g.nodes[d].lineno for d in nonc]}" if nonc else ""))
